@@ -7,7 +7,7 @@ from .driver import drive, write_replay
 from .runner import run_isolated
 
 RUNS = {'C07': {'quick': 900, 'thorough': 60000},
-        'C19': {'quick': 1600, 'thorough': 60000}}
+        'C19': {'quick': 1400, 'thorough': 60000}}
 
 RULE = {
     'C07': (
